@@ -1,6 +1,7 @@
 (* Driver for the C02 model (C02Model.v over Qc).  Same case file as harness/c02_solve.cpp; one output line
    per input line.  Lines the model does not cover print "<letter> -".
-   Numbers: integers or dyadic fractions p/q (hex floats only occur in lines the model does not cover).
+   Numbers: integers, dyadic fractions p/q, or C hex floats (converted to the exact rational they denote).
+   A line "N" (case not meant for the model) prints "N -".
    The square root handed to the model is exact on perfect squares of rationals and raises otherwise. *)
 open C02_model
 let rec nat_of_int n = if n <= 0 then O else S (nat_of_int (n - 1))
@@ -35,7 +36,26 @@ let sq x =
 let f = qc_ops sq
 let zero = f.fzero
 
+let rec shift_pos p k = if k <= 0 then p else shift_pos (XO p) (k - 1)
+(* [-]0x1.hhhhhhhhhhhhhp[+-]e  (Python float.hex) -> exact rational *)
+let parse_hex s =
+  let neg = String.length s > 0 && s.[0] = '-' in
+  let s = if neg || (String.length s > 0 && s.[0] = '+') then String.sub s 1 (String.length s - 1) else s in
+  if String.length s < 3 || String.sub s 0 2 <> "0x" then failwith "hex";
+  let pi = String.index s 'p' in
+  let mant = String.sub s 2 (pi - 2) and ex = int_of_string (let e = String.sub s (pi + 1) (String.length s - pi - 1) in
+                                                            if e.[0] = '+' then String.sub e 1 (String.length e - 1) else e) in
+  let ip, fp = match String.index_opt mant '.' with
+    | Some k -> String.sub mant 0 k, String.sub mant (k + 1) (String.length mant - k - 1)
+    | None -> mant, "" in
+  let m = int_of_string ("0x" ^ ip ^ fp) and e2 = ex - 4 * String.length fp in
+  if m = 0 then qc_make Z0 XH
+  else
+    let mp = pos_of_int m in
+    let num, den = if e2 >= 0 then shift_pos mp e2, XH else mp, shift_pos XH (- e2) in
+    qc_make (if neg then Zneg num else Zpos num) den
 let parse_num s =
+  if String.length s > 2 && (String.sub s 0 2 = "0x" || (String.length s > 3 && String.sub s 1 2 = "0x")) then parse_hex s else
   match String.index_opt s '/' with
   | Some k -> qc_make (z_of_int (int_of_string (String.sub s 0 k))) (pos_of_int (int_of_string (String.sub s (k + 1) (String.length s - k - 1))))
   | None -> qc_make (z_of_int (int_of_string s)) XH
@@ -59,6 +79,9 @@ let orient_of s = if s = "r" then RowMajor else ColMajor
 let tri_of = function "lower" -> Some (false, false) | "unit_lower" -> Some (false, true)
   | "upper" -> Some (true, false) | "unit_upper" -> Some (true, true) | _ -> None
 let bs = nat_of_int 32
+let lubs = nat_of_int 4
+let potrf_b upper o nn t = potrf_blocked f bs bs upper o nn t
+let pstr n (p : pvec) = String.concat " " (List.map (fun k -> string_of_int (int_of_nat k)) (tabp (nat_of_int n) p))
 
 (* print a result given as list of columns (n x m) row by row *)
 let cols_str n (cols : qc vec list) =
@@ -76,8 +99,18 @@ let solve_m tag ao left n (a : qc array array) (b : qc array array) =
   | Some (upper, unit) -> out (trsm f bs upper unit left t nn vecs)
   | None ->
     if tag = "spd" then
-      (match potrf f false (orient_of ao) nn t with
-       | POk l -> out (chol_solve_m f bs left l nn vecs)
+      (match potrf_b false (orient_of ao) nn t with
+       | BOk l -> out (chol_solve_m f bs left l nn vecs)
+       | _ -> None)
+    else if tag = "indef" then
+      (* pivoting_lu_decomposition::solve(B, side): every column (left) / row (right) of B by the vector routine *)
+      (match getrf f qc_abs lubs bs nn t with
+       | LUOk (lu, p) ->
+         let o = orient_of ao in
+         let rec all = function [] -> Some [] | v :: r ->
+           (match (if left then lu_solve f o lu p nn v else lu_solve_right f o lu p nn v), all r with
+            | Some x, Some xs -> Some (x :: xs) | _ -> None) in
+         out (all vecs)
        | _ -> None)
     else raise Not_found
 
@@ -87,9 +120,15 @@ let solve_v tag ao left n a (b : qc array) =
   | Some (upper, unit) -> (match trsv f upper unit (orient_of ao) left t nn (fvec b) with None -> None | Some x -> Some (vstr n x))
   | None ->
     if tag = "spd" then
-      (match potrf f false (orient_of ao) nn t with
-       | POk l -> (match chol_solve_with f (orient_of ao) l nn (fvec b) with None -> None | Some x -> Some (vstr n x))
+      (match potrf_b false (orient_of ao) nn t with
+       | BOk l -> (match chol_solve_with f (orient_of ao) l nn (fvec b) with None -> None | Some x -> Some (vstr n x))
        | _ -> None)
+    else if tag = "indef" then
+      (if left then (match lu_solve_full f qc_abs lubs bs (orient_of ao) t nn (fvec b) with None -> None | Some x -> Some (vstr n x))
+       else
+         match getrf f qc_abs lubs bs nn t with
+         | LUOk (lu, p) -> (match lu_solve_right f (orient_of ao) lu p nn (fvec b) with None -> None | Some x -> Some (vstr n x))
+         | _ -> None)
     else raise Not_found
 
 let mstr n (m : qc mat) = String.concat " " (List.concat (List.init n (fun i -> List.init n (fun j -> q_to_string (m (nat_of_int i) (nat_of_int j))))))
@@ -119,16 +158,30 @@ let handle line =
          | _ -> "I EXC")
       | "C", [[ao; ns]; al] ->
         let n = int_of_string ns in
-        (match potrf f false (orient_of ao) (nat_of_int n) (fmat (mat_of n n al)) with
-         | POk l -> "C OK " ^ mstr n l
-         | PFail (k, l) -> Printf.sprintf "C FAIL %d" (int_of_nat k)
-         | PZeroDiv k -> Printf.sprintf "C ZERODIV %d" (int_of_nat k))
+        (match potrf_b false (orient_of ao) (nat_of_int n) (fmat (mat_of n n al)) with
+         | BOk l -> "C OK " ^ mstr n l
+         | BFail (k, l) -> Printf.sprintf "C FAIL %d" (int_of_nat k)
+         | BExc -> "C EXC")
       | "K", [[tri; ao; ns]; al] ->
         let n = int_of_string ns in
-        (match potrf f (tri = "upper") (orient_of ao) (nat_of_int n) (fmat (mat_of n n al)) with
-         | POk l -> "K OK 0 ; " ^ mstr n l
-         | PFail (k, l) -> Printf.sprintf "K OK %d ; %s" (int_of_nat k) (mstr n l)
-         | PZeroDiv k -> Printf.sprintf "K ZERODIV %d" (int_of_nat k))
+        (match potrf_b (tri = "upper") (orient_of ao) (nat_of_int n) (fmat (mat_of n n al)) with
+         | BOk l -> "K OK 0 ; " ^ mstr n l
+         | BFail (k, l) -> Printf.sprintf "K OK %d ; %s" (int_of_nat k) (mstr n l)
+         | BExc -> "K EXC")
+      | "G", [[_ao; ns]; al] ->
+        let n = int_of_string ns in
+        (match getrf f qc_abs lubs bs (nat_of_int n) (fmat (mat_of n n al)) with
+         | LUOk (lu, p) -> Printf.sprintf "G OK %s ; %s" (mstr n lu) (pstr n p)
+         | LUFail (_, _) -> "G EXC"
+         | LUExc -> "G FUEL")
+      | "Z", [["indef"; ao; ns; ms]; al; bl] ->
+        let n = int_of_string ns and m = int_of_string ms in
+        let a = mat_of n n al and b = mat_of n m bl in
+        let bt = Array.init m (fun r -> Array.init n (fun i -> b.(i).(r))) in
+        let b0 = Array.init n (fun i -> b.(i).(0)) in
+        (match solve_m "indef" ao true n a b, solve_m "indef" ao false n a bt, solve_v "indef" ao true n a b0, solve_v "indef" ao false n a b0 with
+         | Some x, Some y, Some xv, Some yv -> Printf.sprintf "Z OK %s ; %s ; %s ; %s" x y xv yv
+         | _ -> "Z EXC")
       | _ -> cmd ^ " -"
     with Not_found -> cmd ^ " -" | No_sqrt -> cmd ^ " NOSQRT" | Failure _ -> cmd ^ " -")
 
